@@ -3,8 +3,11 @@ package an
 import (
 	"fmt"
 	"go/token"
+	"go/types"
 
 	"golang.org/x/tools/go/ssa"
+
+	"f1verif/internal/core"
 )
 
 // Lit is a branch condition (negations stripped) with the value it had on a path.
@@ -12,6 +15,17 @@ type Lit struct {
 	Cond ssa.Value
 	Val  bool
 	If   *ssa.If
+	// Tr translates a value of the literal's own function (a bool helper that was expanded) into the root
+	// function's frame; nil for literals of the root function.
+	Tr func(ssa.Value) ssa.Value
+}
+
+// T applies the literal's translation.
+func (l Lit) T(v ssa.Value) ssa.Value {
+	if l.Tr == nil {
+		return v
+	}
+	return l.Tr(v)
 }
 
 // DPath is one acyclic path through a function's CFG: the branch literals taken and the return reached.
@@ -107,4 +121,117 @@ func (p DPath) OnPath(v ssa.Value) ssa.Value {
 		}
 	}
 	return v
+}
+
+// boolHelper: cond is a call of a loop-free module function returning a single bool.
+func boolHelper(cond ssa.Value) (*ssa.Call, *ssa.Function) {
+	call, ok := Strip(cond).(*ssa.Call)
+	if !ok {
+		return nil, nil
+	}
+	f := Callee(call)
+	if f == nil || f.Blocks == nil || !core.InModule(f) || f.Signature.Results().Len() != 1 {
+		return nil, nil
+	}
+	if b, ok := f.Signature.Results().At(0).Type().Underlying().(*types.Basic); !ok || b.Kind() != types.Bool {
+		return nil, nil
+	}
+	return call, f
+}
+
+// ExpandLit replaces a literal on a bool-helper call by the alternatives (conjunctions of the helper's own
+// branch literals) under which the helper returns the literal's value. Operands of the new literals are
+// translated into the caller's frame through Lit.Tr.
+func ExpandLit(l Lit, depth int, stop func(*ssa.Function) bool) [][]Lit {
+	call, f := boolHelper(l.Cond)
+	if f == nil || depth <= 0 || (stop != nil && stop(f)) {
+		return [][]Lit{{l}}
+	}
+	paths, err := DecisionPaths(f, 256)
+	if err != nil {
+		return [][]Lit{{l}}
+	}
+	outer := l.Tr
+	tr := func(v ssa.Value) ssa.Value {
+		v = stripParamSpill(v)
+		if p, ok := v.(*ssa.Parameter); ok && p.Parent() == f {
+			idx := paramIndex(p)
+			if idx >= 0 && idx < len(call.Call.Args) {
+				a := call.Call.Args[idx]
+				if outer != nil {
+					return outer(a)
+				}
+				return a
+			}
+		}
+		return v
+	}
+	var alts [][]Lit
+	for _, p := range paths {
+		if p.Ret == nil {
+			continue
+		}
+		res := p.OnPath(Strip(p.Ret.Results[0]))
+		for i := 0; i < 3; i++ {
+			res = p.OnPath(Strip(res))
+		}
+		var lits []Lit
+		for _, hl := range p.Lits {
+			lits = append(lits, Lit{Cond: hl.Cond, Val: hl.Val, If: hl.If, Tr: tr})
+		}
+		if k, ok := res.(*ssa.Const); ok && k.Value != nil {
+			if (k.Value.String() == "true") != l.Val {
+				continue
+			}
+		} else {
+			lits = append(lits, Lit{Cond: res, Val: l.Val, If: l.If, Tr: tr})
+		}
+		// expand nested helpers
+		expanded := [][]Lit{{}}
+		for _, x := range lits {
+			var next [][]Lit
+			for _, alt := range ExpandLit(x, depth-1, stop) {
+				for _, pre := range expanded {
+					next = append(next, append(append([]Lit(nil), pre...), alt...))
+				}
+			}
+			expanded = next
+		}
+		alts = append(alts, expanded...)
+	}
+	if len(alts) == 0 {
+		return [][]Lit{{l}}
+	}
+	return alts
+}
+
+// DecisionPathsInl is DecisionPaths with branch conditions on bool helpers expanded into the helpers' own
+// comparisons (virtual inlining): extracting a condition into a helper does not change the decision table.
+func DecisionPathsInl(fn *ssa.Function, limit, depth int, stop func(*ssa.Function) bool) ([]DPath, error) {
+	paths, err := DecisionPaths(fn, limit)
+	if err != nil {
+		return nil, err
+	}
+	var out []DPath
+	for _, p := range paths {
+		variants := [][]Lit{{}}
+		for _, l := range p.Lits {
+			var next [][]Lit
+			for _, alt := range ExpandLit(l, depth, stop) {
+				for _, pre := range variants {
+					next = append(next, append(append([]Lit(nil), pre...), alt...))
+				}
+			}
+			variants = next
+			if len(variants) > limit {
+				return nil, fmt.Errorf("more than %d expanded paths", limit)
+			}
+		}
+		for _, v := range variants {
+			q := p
+			q.Lits = v
+			out = append(out, q)
+		}
+	}
+	return out, nil
 }
